@@ -287,6 +287,9 @@ ADDENDA = {
     "C16": ("R16.3, cycle-edge clause of R16.2; section 8",
             "on the cycle branch only an edge cycle[i] -> cycle[i+1] of the reported cycle may be given up; every contributing library becomes a key of the dependency map",
             "operand-role check on the erase site"),
+    "C17": ("located-path clause of R17.1; section 8",
+            "the includer's directory is the dirname of the located path (CPPFile::_filename), not of its spelling in the #include",
+            "field-resolved probe classification"),
     "C18": ("R18.4; section 8",
             "the boundary and decode formulas of DiyFp, evaluated from their expression trees at sample points, equal Grisu2's definitions",
             "expression-tree evaluation against a reference formula"),
